@@ -159,8 +159,10 @@ theorem marketToCur_curTok {s s' : RState} {mt tok amt : Nat}
     · cases h
     · split at h
       · cases h
-      · rename_i c' hc
-        cases h; exact recordIn_token hc
+      · split at h
+        · cases h
+        · rename_i c' hc
+          cases h; exact recordIn_token hc
 
 theorem marketToMarket_cur {s s' : RState} {a b tok amt : Nat}
     (h : marketToMarket s a b tok amt = some s') : s'.cur = s.cur := by
